@@ -30,7 +30,11 @@ RULE = ('every pair (left, right) of tables whose key vectors range over ALL tup
         'inputs already in reference key order / buffersize in {1,2,3} not larger than the bigger table (the internal '
         'sorts spill to chunk files; left <=2 rows, right <=3 rows over {None,i1,s1}, duplicate keys in different '
         'chunks differing in their id field: lookupjoin must still take the FIRST partner in right-table order) / '
-        'tuple-VALUED cells in a single key field (K4 + (i1,), (i1,i2), '
+        'CALL STYLE: every operator called with its documented arguments given POSITIONALLY in the documented order '
+        '(key, lkey, rkey, missing, presorted, ... per operator; unspecified ones at their documented default), as '
+        'method of a wrapped table with keywords, and as method positionally, x {key+missing, key+missing+prefixes, '
+        'lkey+rkey+missing} on all pairs of tables <=2 rows over K4 (unsorted, with unmatched rows; missing=text); '
+        'crossjoin also in method syntax / tuple-VALUED cells in a single key field (K4 + (i1,), (i1,i2), '
         '(None,s1), (): all vectors <=2, thorough also <=3 over {i1,(i1,),(i1,i2),()}; key=, missing=text, and '
         'lkey/rkey by name and by index with the key in different columns) / presorted=True x ragged rows (full, short after the key, long: the '
         'key cell exists, key sequence in reference order) x missing None/text / right table with key fields only / '
@@ -93,7 +97,8 @@ def cross_tables(maxrows):
     return out
 
 
-CROSS_KW = [{}, {'prefix': True}, {'missing': MISS}, {'prefix': True, 'missing': MISS}]
+CROSS_KW = [{}, {'prefix': True}, {'missing': MISS}, {'prefix': True, 'missing': MISS},
+            {'prefix': True, 'missing': MISS, '_call': 'method'}]
 
 
 def _retag(t, i):
@@ -178,7 +183,7 @@ def check_join(op, left, right, kw):
     observed, message)."""
     hdr, rows, lidx = J.relational(op, left, right, **kw)
     try:
-        out = _rows(getattr(etl, op)(left, right, **kw))
+        out = _rows(J.invoke(etl, op, left, right, kw))
     except Exception as e:
         return ('raises %s' % type(e).__name__, [hdr] + rows, _exc(e),
                 '%s raised %s on inputs for which the relational result is defined' % (op, type(e).__name__))
@@ -197,9 +202,12 @@ def check_join(op, left, right, kw):
 
 
 def check_cross(tables, kw):
-    hdr, rows = J.crossjoin(tables, **kw)
+    hdr, rows = J.crossjoin(tables, **{k: v for k, v in kw.items() if k != '_call'})
     try:
-        out = _rows(etl.crossjoin(*tables, **kw))
+        if kw.get('_call') == 'method':
+            out = _rows(etl.wrap(tables[0]).crossjoin(*tables[1:], **{k: v for k, v in kw.items() if k != '_call'}))
+        else:
+            out = _rows(etl.crossjoin(*tables, **kw))
     except Exception as e:
         return ('raises %s' % type(e).__name__, [hdr] + rows, _exc(e),
                 'crossjoin raised %s' % type(e).__name__)
